@@ -1,9 +1,12 @@
 //go:build verif
 
-// Contracts for property C08 (initial-covering slice): the top-level covering the optimized edge query
-// starts from contains every cell of the index (so no indexed edge is unreachable from the queue), and
-// each range handed to addInitialRange lies on one cube face. The search itself (queue order, distance
-// bounds, result bookkeeping) is floating point and is not decided. Comment-only; build tag verif.
+// Contracts for property C08 (initial-covering slice): addInitialRange appends exactly one covering cell,
+// keeps the earlier ones and covers both ends of the range it is given, provided the two ends lie on one
+// cube face (its documented precondition). initCovering itself (loop over top-level cells: every index cell
+// ends up inside some covering cell) did not discharge within any practical solver budget (sorted-disjoint
+// index + Hilbert range arithmetic + forall-exists coverage); it is checked by the BOUNDED stand-in under
+// /verif/bounded/C08 instead, labelled bounded and not counted as proved. The search itself (queue order,
+// distance bounds, result bookkeeping) is floating point and is not decided. Comment-only; build tag verif.
 
 package s2
 
@@ -33,23 +36,3 @@ package s2
 //@   ensures [appended] len(e.indexCovering) == old(len(e.indexCovering))+1
 //@   ensures [kept] forall j int :: 0 <= j && j < old(len(e.indexCovering)) ==> e.indexCovering[j] == old(e.indexCovering)[j]
 //@   ensures [covers-ends] vcInside(first.id, e.indexCovering[len(e.indexCovering)-1]) && vcInside(last.id, e.indexCovering[len(e.indexCovering)-1])
-
-// the level at which initCovering splits an index whose first and last cells are a and b
-//@ spec func vcTopLevel(a, b CellID) int = vcIf(uint64(a)>>61 == uint64(b)>>61, vcFirstInt(a.CommonAncestorLevel(b))+1, 0)
-//@ spec func vcFirstInt(l int, ok bool) int = l
-
-// Index cells are pairwise disjoint, so none of them is as large as the smallest common ancestor of the first and the
-// last one (it would contain both). This consequence of disjointness is taken as a precondition, not proved here.
-//@ spec func vcBelowTop(ix *ShapeIndex) bool = len(ix.cells) >= 2 ==> (forall k int :: 0 <= k && k < len(ix.cells) ==> vcLsb(ix.cells[k]) <= vcLsbAt(vcTopLevel(ix.cells[0], ix.cells[len(ix.cells)-1])))
-
-// every cell of the index is inside some cell of the initial covering
-//@ func (e *EdgeQuery) initCovering()
-//@   requires e != nil && e.index != nil && e.index.status == fresh && vcIdx(e.index) && vcBelowTop(e.index) && len(e.index.cells) >= 1
-//@   modifies e.indexCovering, e.indexCells
-//@   ensures [covers-index] forall k int :: 0 <= k && k < len(e.index.cells) ==> vcCovered(e, k)
-//@   loop 1 (id CellID, next *ShapeIndexIterator, last *ShapeIndexIterator, lastID CellID): invariant [iters] vcIterAt(next) && vcIterAt(last) && next.index == e.index && last.index == e.index && last.position == len(e.index.cells)-1 && next != last && vcFresh(next) && vcFresh(last)
-//@   loop 1: invariant [top] vcValid(lastID) && vcInside(e.index.cells[len(e.index.cells)-1], lastID) && vcLsb(lastID) >= 1
-//@   loop 1: invariant [deep] forall k int :: 0 <= k && k < len(e.index.cells) ==> vcLsb(e.index.cells[k]) <= vcLsb(lastID)
-//@   loop 1: invariant [id] vcValid(id) && vcLsb(id) == vcLsb(lastID) && vcLo(id) <= vcLo(lastID)
-//@   loop 1: invariant [next-in-or-after-id] next.position < len(e.index.cells) && vcLo(id) <= uint64(e.index.cells[next.position])
-//@   loop 1: invariant [covered-so-far] forall k int :: 0 <= k && k < next.position ==> vcCovered(e, k)
